@@ -252,8 +252,50 @@ func (c *Ctx) recoverCase(group string, input any) {
 		if len(st) > 3000 {
 			st = st[:3000]
 		}
+		if !libraryPanic(st) {
+			c.Inconclusive(fmt.Sprintf("harness panic in case %s: %v | %s", c.curCase, p, firstLine(harnessFrame(st))))
+			return
+		}
 		c.ViolationSig("panic:"+group, "panic:"+group+":"+firstLine(fmt.Sprint(p)), fmt.Sprintf("panic: %v", p), input, "no panic", st)
 	}
+}
+
+// libraryPanic reports whether the innermost non-runtime, non-stdlib frame below
+// the panic belongs to the library under test (and not to the harness itself).
+func libraryPanic(stack string) bool {
+	lines := strings.Split(stack, "\n")
+	seenPanic := false
+	for _, l := range lines {
+		if strings.HasPrefix(l, "panic(") {
+			seenPanic = true
+			continue
+		}
+		if !seenPanic || strings.HasPrefix(l, "\t") {
+			continue
+		}
+		if strings.HasPrefix(l, "gitlab.com/gomidi/") {
+			return true
+		}
+		if strings.HasPrefix(l, "verif/harness/") {
+			return false
+		}
+	}
+	return true
+}
+
+func harnessFrame(stack string) string {
+	lines := strings.Split(stack, "\n")
+	seenPanic := false
+	for i, l := range lines {
+		if strings.HasPrefix(l, "panic(") {
+			seenPanic = true
+			continue
+		}
+		if seenPanic && strings.HasPrefix(l, "verif/harness/") && i+1 < len(lines) {
+			return l + " " + strings.TrimSpace(lines[i+1])
+		}
+	}
+	return ""
 }
 
 func firstLine(s string) string {
@@ -275,6 +317,10 @@ func (c *Ctx) Guard(class string, input any, fn func()) (panicked bool) {
 			st := string(debug.Stack())
 			if len(st) > 3000 {
 				st = st[:3000]
+			}
+			if !libraryPanic(st) {
+				c.Inconclusive(fmt.Sprintf("harness panic in case %s: %v | %s", c.curCase, p, firstLine(harnessFrame(st))))
+				return
 			}
 			c.ViolationSig(class, class+":"+firstLine(fmt.Sprint(p)), fmt.Sprintf("panic: %v", p), input, "no panic", st)
 		}
